@@ -26,8 +26,8 @@ fn describe() -> Describe {
         id: "C04",
         level: "exploration",
         rule: "exhaustive grid: every binary operator / comparison / extension / truncation / ite over ALL operand \
-               values at small widths and over the boundary alphabet squared (shift amounts 0..w+2, 2^k, 2^64-1, 2^64, \
-               2^w-1) at widths 9..200, through il::Constant methods AND through Expression constructors + executor::eval; \
+               values at small widths (1..6 quick, 1..10 thorough) and over the boundary alphabet squared (shift amounts 0..w+2, 2^k, 2^64-1, 2^64, \
+               2^w-1) at widths {16,32,33,63,64,65,128,129} (quick) / every width 11..136 and the neighbourhoods of 192, 256, 512, 1024 (thorough), through il::Constant methods AND through Expression constructors + executor::eval; \
                all depth-2 expression trees over a 3-bit leaf alphabet; constructor sort-rejection for all unequal width \
                pairs; sra/rotl/replace_scalar against the same reference. A case is non-trivial when the reference \
                defines a value or a specific error for it; every enumerated case is distinct by construction.",
@@ -587,7 +587,7 @@ fn run(ctx: &Ctx) -> Acc {
     };
 
     // (a) all values at small widths
-    let maxw = if thorough { 8 } else { 6 };
+    let maxw = if thorough { 10 } else { 6 };
     for w in 1..=maxw {
         let vals = all_values(w);
         for op in ALL_BIN {
@@ -639,12 +639,13 @@ fn run(ctx: &Ctx) -> Acc {
         }
     }
     // (b) boundary widths
-    let widths: &[usize] = if thorough {
-        &[9, 15, 16, 17, 31, 32, 33, 63, 64, 65, 127, 128, 129, 200]
+    let widths: Vec<usize> = if thorough {
+        // every width from 11 to 136, then the neighbourhoods of 192, 256, 512 and 1024
+        (11..=136).chain([191, 192, 193, 200, 255, 256, 257, 511, 512, 513, 1024]).collect()
     } else {
-        &[16, 32, 33, 63, 64, 65, 128, 129]
+        vec![16, 32, 33, 63, 64, 65, 128, 129]
     };
-    for &w in widths {
+    for &w in &widths {
         let vals = bv::boundary(w);
         let amts = shift_amounts(w);
         for op in ALL_BIN {
